@@ -376,9 +376,19 @@ fn cmd_front(args: &[&str], out: &mut Vec<String>) {
     let user = text_arg(args[0]);
     let contents = FileContents::new_from_data(hk::preamble(), &user, "input.hcl");
     out.push(format!("plen {}", hk::preamble().len()));
+    if args[1] == "3" {
+        match hk::parse_statements(contents.data(), false) {
+            Ok(sts) => {
+                for st in sts {
+                    out.push(format!("stmt {}", st));
+                }
+            }
+            Err(es) => out.push(format!("parseerr {}", es.join(" ; "))),
+        }
+    }
     match parse_y86_hcl(&contents) {
         Ok(p) => {
-            if args[1] == "2" {
+            if args[1] == "2" || args[1] == "3" {
                 out.push(format!("accept {}", hk::compiled(&p)));
             } else {
                 out.push(String::from("accept"));
